@@ -26,10 +26,10 @@ SpecBytes(r) == CASE r.vec.kind = "packet"   -> Encode(KeyR(r), r.vec.value)
                   [] r.vec.kind = "overlong" -> r.vec.value.raw
 
 ClauseNames(kind) ==
-    CASE kind = "packet"   -> {"Bind_InputIsSpecEncoding", "C09_EncodesToLayout", "C09_IdMatches", "C09_DecodesBack", "C09_ConsumesAll"}
-      [] kind = "varint"   -> {"Bind_InputIsSpecEncoding", "C09_VarIntLayout", "C09_VarIntRoundTrip"}
-      [] kind = "varlong"  -> {"Bind_InputIsSpecEncoding", "C09_VarLongLayout", "C09_VarLongRoundTrip"}
-      [] kind = "reject"   -> {"Bind_InputIsSpecEncoding", "C09_OrdinalRejected"}
+    CASE kind = "packet"   -> {"Bind_InputIsSpecEncoding", "C09_EncodesToLayout", "C09_IdMatches", "C09_DecodesBack", "C09_ConsumesAll", "C09_DecodeIgnoresSegmentation"}
+      [] kind = "varint"   -> {"Bind_InputIsSpecEncoding", "C09_VarIntLayout", "C09_VarIntRoundTrip", "C09_DecodeIgnoresSegmentation"}
+      [] kind = "varlong"  -> {"Bind_InputIsSpecEncoding", "C09_VarLongLayout", "C09_VarLongRoundTrip", "C09_DecodeIgnoresSegmentation"}
+      [] kind = "reject"   -> {"Bind_InputIsSpecEncoding", "C09_OrdinalRejected", "C09_DecodeIgnoresSegmentation"}
       [] kind = "overlong" -> {"Bind_InputIsSpecEncoding", "Drift_OverlongRejected"}
       [] OTHER             -> {"Bind_InputIsSpecEncoding"}
 
@@ -53,6 +53,9 @@ Clause(cl, r, bs, hx) ==
                                         r.decoded_ok /\ ~r.panic /\ d.ok /\ r.decoded = d.v /\ r.decoded = r.vec.value /\ r.decoded_value_roundtrip
       \* ... and leaves nothing unread (judged where decoding succeeded at all)
       [] cl = "C09_ConsumesAll"      -> r.decoded_ok => r.consumed_all
+      \* decoding "those bytes" does not depend on the pieces in which the source delivers them (one byte at a time; irregular pieces):
+      \* same acceptance, same value, same number of bytes consumed as from one contiguous buffer
+      [] cl = "C09_DecodeIgnoresSegmentation" -> r.segmented_same
       [] cl = "C09_VarIntLayout"     -> ~r.panic /\ r.encoded = hx /\ Len(bs) <= 5
       [] cl = "C09_VarLongLayout"    -> ~r.panic /\ r.encoded = hx /\ Len(bs) <= 10
       [] cl = "C09_VarIntRoundTrip"  -> r.decoded_ok /\ ~r.panic /\ r.decoded.v = DecVarInt(bs, 1).v /\ r.decoded.v = r.vec.value.v
